@@ -161,6 +161,9 @@ def check_stream(case, stats):
 
 
 SPECIALS = [
+    # bytes that look like another encoding's signature, NULs at even/odd offsets
+    "#\x00!\x00 comment\nFeature: f\n", "\x00", "F\x00e\x00a\x00t\x00", "\x00F\x00e", "\ufffeFeature: f\n", "\u00ff\u00feFeature: f\n", "\u00ef\u00bb\u00bfFeature: f\n",
+    "# -*- coding: latin-1 -*-\nFeature: caf\u00e9\n",
     # values that make optional message fields empty after substitution; empty names; comment-only and blank-only sources
     "Feature: f\n Scenario Outline: o <a>\n  Given <a>\n   \"\"\"<a>\n   <a>\n   \"\"\"\n  And t\n   | <a> |\n  Examples:\n   | a |\n   |   |\n   | x |\n",
     "Feature:\n Scenario:\n  Given \n Rule:\n  Background:\n  Example:\n",
